@@ -3,7 +3,7 @@
     // C05 — paired emission in codegen and state save/restore in the VM are G-CG / G-VM (the installed Kani crashes on
     // CodeGenerator; State is not constructible under Kani; Verus rejects closures over &mut State): BOUNDED native
     // stand-in on the real engine.
-//# ob name=scoped_constructs_native role=native_bounded fn=compiler::codegen::compile_stmt+vm::{eval_macro,perform_include,perform_super,call_block}+State::{with_execution_state,with_auto_escape} kind=bounded bound="11 scoped constructs (for, for-else taken and not taken, recursive for, with, set-block, filter-block, autoescape, macro, call block, block, include) each wrapped around every other one (121 two-level nestings) with a probe before / inside / after; error paths: failing macro / call block / include / super swallowed by a host function; from-import and extends-in-include inside captures; nested autoescape; a failure inside 11 scoped constructs within a macro body / a call body swallowed by a host function, in escaping / non-escaping templates with / without blocks; 6 include outcomes (found, list with missing entries, everything missing with ignore missing) x 8 shells with macros declared before / after the include against the same shell with the included text in place" stmt="every scoped construct leaves variable scope, output capturing and the auto-escape mode exactly as it found them on every path (including error paths survived by the host), text written after it reaches the real output, assignments made inside loops / with / macros / blocks are invisible outside while top-level and if-branch assignments persist"
+//# ob name=scoped_constructs_native role=native_bounded fn=compiler::codegen::compile_stmt+vm::{eval_macro,perform_include,perform_super,call_block}+State::{with_execution_state,with_auto_escape} kind=bounded bound="11 scoped constructs (for, for-else taken and not taken, recursive for, with, set-block, filter-block, autoescape, macro, call block, block, include) each wrapped around every other one (121 two-level nestings) with a probe before / inside / after; error paths: failing macro / call block / include / super swallowed by a host function; a block failing 0-4 frames deep (nested loops, with, capture, include, recursive loop, for-else) rendered through State::render_block from a host function inside 6 kinds of enclosing loops (42 programs against the same program with the call replaced by its result); from-import and extends-in-include inside captures; nested autoescape; a failure inside 11 scoped constructs within a macro body / a call body swallowed by a host function, in escaping / non-escaping templates with / without blocks; 6 include outcomes (found, list with missing entries, everything missing with ignore missing) x 8 shells with macros declared before / after the include against the same shell with the included text in place" stmt="every scoped construct leaves variable scope, output capturing and the auto-escape mode exactly as it found them on every path (including error paths survived by the host), text written after it reaches the real output, assignments made inside loops / with / macros / blocks are invisible outside while top-level and if-branch assignments persist"
     fn scoped_constructs_native() {
         use crate::{Environment, Error, ErrorKind, State};
         use crate::value::Value;
@@ -92,6 +92,49 @@
                     if let Some(inner) = out.split('|').nth(1).and_then(|r| r.split('>').next()) { if src.contains("attempt(caller)") { assert!(inner == a, "{name}: state inside the calling macro after a swallowed caller() failure: {src:?} rendered {out:?}"); } }
                 }
             }}}
+        }
+        // a block rendered through State::render_block from a host function that swallows its failure, called from inside
+        // loops: the failure leaves 0..4 frames (loops, with, capture, an include's frames) above the caller's; the caller's
+        // own loops must go on exactly as if the function had simply returned "ERR" (frame stack restored to its depth)
+        {
+            fn try_block(state: &mut State, name: &str) -> String {
+                match state.render_block(name) { Ok(v) => v, Err(_) => "ERR".into() }
+            }
+            let mut env3 = Environment::new();
+            env3.add_function("try_block", try_block);
+            env3.add_function("boom", boom);
+            env3.add_template("failing_inc", "{% for z in [1] %}{% for y in [1, 2] %}{{ boom() }}{% endfor %}{% endfor %}").unwrap();
+            let bodies = [
+                "{{ boom() }}", "{% for p in [1, 2] %}{{ boom() }}{% endfor %}", "{% for p in [1, 2] %}{% for q in [1, 2] %}{{ boom() }}{% endfor %}{% endfor %}",
+                "{% for p in [1] %}{% with w = 1 %}{% for q in [1] %}{% set c %}{% for r in [1] %}{{ boom() }}{% endfor %}{% endset %}{% endfor %}{% endwith %}{% endfor %}",
+                "{% for p in [1, 2] %}{% for q in [1, 2] %}{% include 'failing_inc' %}{% endfor %}{% endfor %}",
+                "{% for p in [[1]] recursive %}{% if p is sequence %}{{ loop(p) }}{% else %}{% for q in [1] %}{{ boom() }}{% endfor %}{% endif %}{% endfor %}",
+                "{% for p in [] %}{% else %}{% for q in [1] %}{% for r in [1] %}{{ boom() }}{% endfor %}{% endfor %}{% endfor %}",
+            ];
+            let hosts = [
+                "[TRY]after{{ loop is defined }}",
+                "{% for a in [1, 2, 3] %}{{ a }}:TRY:{{ loop.index }}/{{ loop.length }}/{{ loop.last }};{% else %}EMPTY{% endfor %}after",
+                "{% for a in [1, 2] %}{% for c in [1, 2] %}{{ a }}{{ c }}TRY{{ loop.index }}{{ loop.revindex }}{% endfor %}|{{ loop.index }}{% else %}E{% endfor %}after",
+                "{% for n in tree recursive %}{{ n.v }}TRY{{ loop.index }}{{ loop(n.c) }}{% endfor %}after",
+                "{% for a in [1, 2] %}{% with w = a %}{% set s %}{{ w }}TRY{% endset %}{{ s }}{{ loop.index }}{% endwith %}{% endfor %}after",
+                "{% for a in [1, 2] %}{{ a }}TRY{% else %}E{% endfor %}{% for b in [] %}x{% else %}ELSE-TRY{% endfor %}after",
+            ];
+            let tree = crate::context! { tree => vec![crate::context! { v => 1, c => vec![crate::context! { v => 2, c => Vec::<Value>::new() }] }, crate::context! { v => 3, c => Vec::<Value>::new() }] };
+            let mut k = 0;
+            for body in bodies { for host in hosts {
+                let decl = format!("{{% if false %}}{{% block b %}}{body}{{% endblock %}}{{% endif %}}");
+                let src = format!("{decl}{}", host.replace("TRY", "{{ try_block('b') }}"));
+                let reference = format!("{decl}{}", host.replace("TRY", "ERR"));
+                let got = std::panic::catch_unwind(std::panic::AssertUnwindSafe(|| env3.render_named_str("rb.txt", &src, tree.clone())));
+                let want = env3.render_named_str("rb.txt", &reference, tree.clone()).unwrap_or_else(|e| panic!("{reference:?}: {e:#}"));
+                match got {
+                    Ok(Ok(out)) => assert!(out == want, "a swallowed render_block failure disturbed the caller: {src:?} rendered {out:?}, expected {want:?}"),
+                    Ok(Err(e)) => panic!("a swallowed render_block failure made the caller fail: {src:?}: {e:#}"),
+                    Err(_) => panic!("a swallowed render_block failure made the caller panic: {src:?}"),
+                }
+                k += 1;
+            }}
+            assert!(k == 42);
         }
         // loop controls in nested loops leave the inner loop only (no with / capture involved)
         #[cfg(feature = "loop_controls")]
